@@ -32,9 +32,9 @@ pub fn prop_values(id: u8) -> Vec<PVal> {
         PTy::U16 => vec![PVal::U16(1), PVal::U16(2), PVal::U16(255), PVal::U16(256), PVal::U16(65535)],
         PTy::U32 => vec![PVal::U32(1), PVal::U32(255), PVal::U32(256), PVal::U32(65535), PVal::U32(65536), PVal::U32(0x0100_0000), PVal::U32(u32::MAX)],
         PTy::Vbi => vec![PVal::Vbi(1), PVal::Vbi(127), PVal::Vbi(128), PVal::Vbi(16383), PVal::Vbi(16384), PVal::Vbi(2_097_151), PVal::Vbi(2_097_152), PVal::Vbi(268_435_455)],
-        PTy::Str => vec![PVal::Str(b"x".to_vec()), PVal::Str(vec![]), PVal::Str(s(128))],
+        PTy::Str => vec![PVal::Str(b"x".to_vec()), PVal::Str(vec![]), PVal::Str(s(128)), PVal::Str(b"n\0l".to_vec())],
         PTy::Bin => vec![PVal::Bin(b"\x00\xff".to_vec()), PVal::Bin(vec![]), PVal::Bin(s(128))],
-        PTy::Pair => vec![PVal::Pair(b"k".to_vec(), b"v".to_vec()), PVal::Pair(vec![], vec![]), PVal::Pair(s(13), s(128))],
+        PTy::Pair => vec![PVal::Pair(b"k".to_vec(), b"v".to_vec()), PVal::Pair(vec![], vec![]), PVal::Pair(s(13), s(128)), PVal::Pair(b"k\0".to_vec(), b"\0v".to_vec())],
     }
 }
 
@@ -112,11 +112,11 @@ fn set_will_props(a: &mut AP, ps: Vec<Prop>) {
 /// Topic Filter contents beyond plain ASCII: shared-subscription forms (well-formed, and the ill-formed
 /// ones that are ordinary filters in v3.1.1), multi-byte UTF-8 in every position
 pub fn special_filters() -> Vec<&'static str> {
-    vec!["$share/g/t", "$share/g/#", "$share/g/+/x", "$share/+/t", "$share/#", "$share/g", "$share//x", "$share/g/", "$share/\u{e9}/t", "$share/g\u{20ac}/s/#", "$share/\u{e9}a+/t", "$share/\u{1F600}/#", "\u{e9}", "+/\u{65e5}\u{672c}/#", "\u{1F600}/+", "$SYS/#", "/", "//", "a/"]
+    vec!["$share/g/t", "$share/g/#", "$share/g/+/x", "$share/+/t", "$share/#", "$share/g", "$share//x", "$share/g/", "$share/\u{e9}/t", "$share/g\u{20ac}/s/#", "$share/\u{e9}a+/t", "$share/\u{1F600}/#", "\u{e9}", "+/\u{65e5}\u{672c}/#", "\u{1F600}/+", "$SYS/#", "/", "//", "a/", "a\u{0}b", "$share/g\u{0}/t"]
 }
 /// Topic Name / plain string contents with multi-byte UTF-8
 pub fn special_names() -> Vec<&'static str> {
-    vec!["\u{e9}", "a/\u{65e5}\u{672c}", "\u{1F600}", "$share/g/t", "/", "a//b", "\u{7f}\u{80}"]
+    vec!["\u{e9}", "a/\u{65e5}\u{672c}", "\u{1F600}", "$share/g/t", "/", "a//b", "\u{7f}\u{80}", "a\u{0}b"]
 }
 
 /// a User Property that pads a property block to exactly `n` bytes (`extra` bytes are taken by others)
@@ -169,7 +169,7 @@ pub fn kinds(ver: Ver, w: usize, level: u8) -> Vec<Kind> {
         }
         fields.push(wills);
         let mut users: Vec<Dev> = lens.iter().map(|&l| dev!(format!("user.len={l}"), move |a: &mut AP| if let AP::Connect { user, .. } = a { *user = Some(s(l)) })).collect();
-        for n in ["\u{e9}", "\u{1F600}x"] {
+        for n in ["\u{e9}", "\u{1F600}x", "n\u{0}l"] {
             users.push(dev!(format!("user={n:?}"), move |a: &mut AP| if let AP::Connect { user, .. } = a { *user = Some(n.as_bytes().to_vec()) }));
             users.push(dev!(format!("client_id={n:?}"), move |a: &mut AP| if let AP::Connect { client_id, .. } = a { *client_id = n.as_bytes().to_vec() }));
         }
